@@ -56,6 +56,10 @@ fn client_attacks() -> Vec<(&'static str, Vec<Rule>)> {
         ("second Certificate (impostor) injected after ServerKeyExchange, ServerHelloDone re-sequenced",
          vec![first(S2C, Kind::SKE, Act::Then(vec![Forge::Certificate(0, 3)])), tam(S2C, Kind::SHD, vec![Tam::SetSeq(4)])]),
         ("Certificate and ServerKeyExchange swapped and re-sequenced", vec![tam(S2C, Kind::CERT, vec![Tam::SetSeq(2)]), tam(S2C, Kind::SKE, vec![Tam::SetSeq(1)]), first(S2C, Kind::CERT, Act::Swap)]),
+        ("impostor certificate appended to the chain and ServerKeyExchange re-signed by the impostor", vec![tam(S2C, Kind::CERT, vec![Tam::AppendCert(0)]), tam(S2C, Kind::SKE, vec![Tam::Resign(0)])]),
+        ("forged plaintext Finished with EMPTY verify_data after ServerHelloDone, genuine Finished withheld", vec![first(S2C, Kind::SHD, Act::Then(vec![Forge::PlainFinishedLen(4, 0)])), all(S2C, Kind::FIN, Act::Drop)]),
+        ("forged plaintext Finished with 1-byte verify_data after ServerHelloDone, genuine Finished withheld", vec![first(S2C, Kind::SHD, Act::Then(vec![Forge::PlainFinishedLen(4, 1)])), all(S2C, Kind::FIN, Act::Drop)]),
+        ("forged plaintext Finished with 11-byte verify_data after ServerHelloDone, genuine Finished withheld", vec![first(S2C, Kind::SHD, Act::Then(vec![Forge::PlainFinishedLen(4, 11)])), all(S2C, Kind::FIN, Act::Drop)]),
         ("certificate replaced only on the first transmission", vec![Rule { dir: S2C, kind: Kind::CERT, occ: Occ::Nth(0), act: Act::Tamper(vec![Tam::SetCert(0)]) }]),
     ]
 }
@@ -71,6 +75,8 @@ fn server_attacks() -> Vec<(&'static str, Vec<Rule>)> {
         ("forged plaintext Finished without key exchange", vec![first(C2S, Kind::CH, Act::Then(vec![Forge::GarbageHs(HT_CLIENT_KEY_EXCHANGE, 1), Forge::PlainFinished(2)]))]),
         ("plaintext ApplicationData injected after ClientHello", vec![first(C2S, Kind::CH, Act::Then(vec![Forge::PlainAppData]))]),
         ("impostor Certificate volunteered after ClientHello", vec![first(C2S, Kind::CH, Act::Then(vec![Forge::Certificate(0, 1)]))]),
+        ("forged plaintext Finished with EMPTY verify_data after ClientKeyExchange, genuine Finished withheld", vec![first(C2S, Kind::CKE, Act::Then(vec![Forge::PlainFinishedLen(2, 0)])), all(C2S, Kind::FIN, Act::Drop)]),
+        ("forged plaintext Finished with 5-byte verify_data after ClientKeyExchange, genuine Finished withheld", vec![first(C2S, Kind::CKE, Act::Then(vec![Forge::PlainFinishedLen(2, 5)])), all(C2S, Kind::FIN, Act::Drop)]),
         ("plaintext close_notify injected after ClientHello", vec![first(C2S, Kind::CH, Act::Then(vec![Forge::PlainCloseNotify]))]),
     ]
 }
@@ -97,6 +103,16 @@ fn pair_scripts() -> Vec<(String, Script)> {
 /// direct oracle, from the property text
 fn pair_oracle(o: &Outcome) -> (Option<String>, Option<String>) {
     let mut known = None;
+    // a side can only be Connected on a genuine Finished of its peer: if every genuine one was withheld
+    // (and only forged ones delivered) Connected means a forged Finished was accepted
+    let withheld = |d: Dir| o.script.rules.iter().any(|r| r.dir == d && r.kind == Kind::FIN && r.occ == Occ::All
+        && (matches!(r.act, Act::Drop) || matches!(&r.act, Act::Tamper(t) if t.contains(&Tam::Corrupt))));
+    if withheld(S2C) && o.cstate == 2 {
+        return (Some("client Connected although every genuine server Finished was withheld: a forged / corrupted Finished was accepted".into()), None);
+    }
+    if withheld(C2S) && o.sstate == 2 {
+        return (Some("server Connected although every genuine client Finished was withheld: a forged / corrupted Finished was accepted".into()), None);
+    }
     // client role
     if let Some(fp) = &o.expected_client_fp {
         let presented_other = o.facts.certs_to_client.iter().any(|c| c != fp);
@@ -274,6 +290,77 @@ fn fp_cases(out: &mut Out, rng: &mut Rng, n: usize) -> serde_json::Value {
     json!({"parse_cases": n, "accepted": ok, "rejected": errs, "multi_attribute_cases": multi})
 }
 
+/// BUNDLE offers with a fingerprint per section / at session level; a conflicting one in a chosen place.
+/// Through `dtls_fingerprint()` (model + oracle) and `PeerConnection::set_remote_description` (oracle).
+async fn fp_bundle_cases(out: &mut Out, rng: &mut Rng, n: usize) -> serde_json::Value {
+    use rustrtc::{PeerConnection, RtcConfiguration};
+    let hex = |rng: &mut Rng| -> String { (0..32).map(|_| format!("{:02X}", rng.below(256))).collect::<Vec<_>>().join(":") };
+    let mut conflicts = 0usize;
+    let mut pc_runs = 0usize;
+    for i in 0..n {
+        let nsec = rng.range(2, 4) as usize;
+        let base = hex(rng);
+        let other = hex(rng);
+        // where fingerprints sit: index 0 = session level, 1..=nsec = sections
+        let mut place: Vec<Option<String>> = (0..=nsec).map(|k| if k == 0 { if rng.chance(1, 3) { Some(base.clone()) } else { None } } else if rng.chance(5, 6) { Some(base.clone()) } else { None }).collect();
+        for p in place.iter_mut().flatten() {
+            match rng.below(4) { 0 => *p = p.to_ascii_lowercase(), 1 => *p = p.replace(':', ""), _ => {} }
+        }
+        // corpus first: conflict in the 2nd / last / 1st section and at session level, fully bundled
+        let conflict_at: Option<usize> = match i { 0 => Some(2), 1 => Some(nsec), 2 => Some(1), 3 => Some(0), _ => if rng.chance(3, 5) { Some(rng.below(nsec as u64 + 1) as usize) } else { None } };
+        if let Some(k) = conflict_at { place[k] = Some(other.clone()); if place.iter().flatten().count() < 2 { place[if k == 1 { 2 } else { 1 }] = Some(base.clone()); } }
+        let bundle: Vec<usize> = match if i < 4 { 0 } else { rng.below(4) } { 0 => (0..nsec).collect(), 1 => (0..nsec).filter(|_| rng.chance(1, 2)).collect(), 2 => (0..nsec).rev().collect(), _ => vec![] };
+        let mut sdp = String::from("v=0\r\no=- 123 0 IN IP4 127.0.0.1\r\ns=-\r\nt=0 0\r\n");
+        if !bundle.is_empty() { sdp.push_str(&format!("a=group:BUNDLE {}\r\n", bundle.iter().map(|m| m.to_string()).collect::<Vec<_>>().join(" "))); }
+        if let Some(f) = &place[0] { sdp.push_str(&format!("a=fingerprint:sha-256 {}\r\n", f)); }
+        for k in 0..nsec {
+            let (kind, pt, codec) = if k % 2 == 0 { ("audio", 111, "opus/48000/2") } else { ("video", 96, "VP8/90000") };
+            sdp.push_str(&format!("m={} 9 UDP/TLS/RTP/SAVPF {}\r\nc=IN IP4 0.0.0.0\r\na=ice-ufrag:abcd\r\na=ice-pwd:abcdefghijklmnopqrstuvwx\r\n", kind, pt));
+            if let Some(f) = &place[k + 1] { sdp.push_str(&format!("a=fingerprint:sha-256 {}\r\n", f)); }
+            sdp.push_str(&format!("a=setup:actpass\r\na=mid:{}\r\na=sendrecv\r\na=rtcp-mux\r\na=rtpmap:{} {}\r\n", k, pt, codec));
+        }
+        // independent view: the distinct fingerprints announced anywhere in the description
+        let canon = |f: &String| f.replace(':', "").to_ascii_uppercase();
+        let mut distinct: Vec<String> = place.iter().flatten().map(canon).collect();
+        distinct.sort(); distinct.dedup();
+        if distinct.len() > 1 { conflicts += 1; }
+        let attrs: Vec<Vec<String>> = place.iter().flatten().map(|f| vec!["sha-256".to_string(), f.clone()]).collect();
+        let parsed = catch(|| SessionDescription::parse(SdpType::Offer, &sdp));
+        let (term, mut fail, desc_res) = match &parsed {
+            Err(p) => ("-".to_string(), Some(format!("panic: {}", p)), String::new()),
+            Ok(Err(e)) => ("-".to_string(), Some(format!("generated SDP did not parse: {:?}", e)), String::new()),
+            Ok(Ok(d)) => {
+                let r = d.dtls_fingerprint();
+                let rt = match &r { Err(_) => "None".to_string(), Ok(None) => "(Some None)".to_string(), Ok(Some(f)) => format!("(Some (Some {}))", fp_term(f)) };
+                let fail = match (&r, distinct.len()) {
+                    (Ok(_), k) if k > 1 => Some(format!("the description announces {} different DTLS fingerprints but dtls_fingerprint() returned {:?}", k, r)),
+                    (Ok(Some(f)), 1) if canon(&f.value) != distinct[0] => Some("dtls_fingerprint() returned a fingerprint that is not the announced one".to_string()),
+                    (Err(e), 1) => Some(format!("a description with one consistent fingerprint was rejected: {:?}", e)),
+                    _ => None,
+                };
+                (format!("KFps {} {}", list_term(&attrs.iter().map(|a| tokens_term(a)).collect::<Vec<_>>()), rt), fail, format!("{:?}", r))
+            }
+        };
+        // the same offer through the public signalling entry point (first 40 cases and every conflict of the corpus)
+        let mut pc_res = String::new();
+        if fail.is_none() && (i < 40) {
+            if let Ok(Ok(d)) = parsed {
+                pc_runs += 1;
+                let pc = PeerConnection::new(RtcConfiguration::default());
+                let r = tokio::time::timeout(std::time::Duration::from_secs(5), pc.set_remote_description(d)).await;
+                pc_res = format!("{:?}", r.as_ref().map(|x| x.as_ref().map_err(|e| e.to_string())));
+                if distinct.len() > 1 && !matches!(r, Ok(Err(_))) {
+                    fail = Some(format!("set_remote_description accepted an offer announcing {} different DTLS fingerprints: {}", distinct.len(), pc_res));
+                }
+                pc.close();
+            }
+        }
+        out.push(Case { term, desc: json!({"sdp": sdp, "distinct_fingerprints": distinct.len(), "bundle": bundle, "dtls_fingerprint": desc_res, "set_remote_description": pc_res}),
+            oracle_fail: fail, known: None, nontrivial: distinct.len() > 1 || !bundle.is_empty(), key: sdp.clone(), kind: "fp-bundle".into() });
+    }
+    json!({"bundle_sdps": n, "with_conflicting_fingerprints": conflicts, "through_set_remote_description": pc_runs})
+}
+
 #[tokio::main(flavor = "multi_thread", worker_threads = 12)]
 async fn main() {
     let args = parse_args();
@@ -304,7 +391,7 @@ async fn main() {
     use dtls_hs::impostor::{self, Mode};
     let reps = if args.tier == "thorough" { 6 } else { 2 };
     let mut jobs = vec![];
-    for _ in 0..reps { for m in [Mode::Genuine, Mode::StolenCert, Mode::OwnCert, Mode::BadFinished] { jobs.push(tokio::spawn(impostor::run(m))); } }
+    for _ in 0..reps { for m in [Mode::Genuine, Mode::StolenCert, Mode::OwnCert, Mode::BadFinished, Mode::ChainStolen, Mode::TruncatedFinished(0), Mode::TruncatedFinished(6), Mode::TruncatedFinished(11)] { jobs.push(tokio::spawn(impostor::run(m))); } }
     let mut imp_stat = std::collections::BTreeMap::<String, usize>::new();
     for (i, j) in jobs.into_iter().enumerate() {
         let o = j.await.expect("impostor task");
@@ -323,7 +410,8 @@ async fn main() {
     }
     let nfp = if args.tier == "thorough" { 30000 } else { 3000 };
     let fpstat = fp_cases(&mut out, &mut rng, nfp);
+    let bundlestat = fp_bundle_cases(&mut out, &mut rng, nfp / 10).await;
     out.finish(json!({"generator": {"pair_scripts_by_kind": dist, "final_state_pairs(client/server; 1=Handshaking 2=Connected 3=Failed 4=Closed)": finals,
-        "pair_harness_wall_s": wall, "fingerprint": fpstat, "impostor(mode:client_state)": imp_stat,
+        "pair_harness_wall_s": wall, "fingerprint": fpstat, "fingerprint_bundle": bundlestat, "impostor(mode:client_state)": imp_stat,
         "tampering": "certificate replacement, re-signing by an impostor, bit flips in randoms / ECDH share / signature / session id / sealed Finished, message omission + re-sequencing, extension stripping, forged plaintext Finished / ApplicationData / close_notify / HelloVerifyRequest / Certificate, sealed garbage"}}));
 }
